@@ -186,4 +186,36 @@ PROPS["C15"] = {
     "assumptions": ["attribute values are ASN.1 string types"],
 }
 
+def nt_c13(lhs, impl):
+    f = lhs.split(" ")
+    d = _hexbytes(f[1])
+    # shape: sequence of (identifier octet) for the first 10 header-looking positions is too costly; use
+    # (first 3 bytes, length bucket, number of 0x30/0xa0-type bytes bucket, outcome)
+    return (f[0], bytes(d[:3]).hex(), min(len(d), 400) // 8, impl[:9])
+
+PROPS["C13"] = {
+    "modules": ["WhatIs.Props.C13"],
+    "theorems": ["WhatIs.C13.no_recurse_into_empty", "WhatIs.C13.value_checks_class", "WhatIs.C13.tags_table_ok",
+                 "WhatIs.C13.dump_roundtrip", "WhatIs.C13.accept_complete", "WhatIs.C13.accept_sound",
+                 "WhatIs.C13.reject_trailing", "WhatIs.C13.reject_truncated", "WhatIs.C13.value_spec"],
+    "facts": {"asn1.recurseIntoEmpty": False, "asn1.valueIgnoresClass": False, "asn1.fromTagChecksClass": True, "asn1.tagCount": 33},
+    "nontrivial": nt_c13,
+    "rule": "TLV trees encoded by the harness's own DER encoder: every universal primitive with boundary/ill-formed contents, "
+            "non-universal primitives (context 0,2,5; application 13; private 31, 2^14, 2^31-1), all shells (incl. empty constructed) "
+            "around <= 2 leaves and one nesting level (all trees with <= 3 nodes over the reduced tag set), long-form lengths "
+            "127/128/255/256/65535/65536, random trees (depth <= 8, width <= 6); non-DER neighbours: indefinite / non-minimal / "
+            "oversize lengths, non-minimal tags, trailing bytes, doubling, truncation, bit flips. distinct non-trivial = distinct "
+            "(op, first 3 bytes, length bucket, outcome)",
+    "design_ref": "DESIGN.md §5 C13",
+    "level_text": "Proof: for ALL well-formed TLV trees (any depth/width, four classes, tags < 2^31, any length form) the model of "
+                  "ParseRaw+childrenAsInfo applied to the DER encoding (independent X.690 encoder) yields exactly the prescribed report; "
+                  "acceptance is sound and complete (trailing bytes, truncation rejected); value rendering equals the X.690 decoding on "
+                  "well-formed content. Tied to the code by the regenerated tag table, two structural facts and a differential run.",
+    "level_note": "Trusted: Lean kernel; translator; model of encoding/asn1 parseTagAndLength and of the primitive decoders (validated "
+                  "by the correspondence, incl. ill-formed contents); the spec-side TLV reader in the oracle is self-checking (enc t = d).",
+    "technique": "Lean 4 proof (mutual structural induction: parser model is a left inverse of an independent DER encoder) + regenerated table/facts + differential correspondence",
+    "trusted_base": ["model of Go encoding/asn1 header parsing and bool/big.Int/OID/string/UTCTime decoding (validated by correspondence)"],
+    "assumptions": ["recognised key/certificate types are excluded from the dump comparison (file-level op) exactly when a typed trial claims them"],
+}
+
 NOT_CLAIMED = {}
